@@ -107,7 +107,7 @@ func clientTerm(c *refstore.Client) string {
 
 var postPool = []string{"https://app.example.com/bye", "https://app.example.com/bye?x=1", "https://app.example.com/out#top",
 	"myapp://bye", "http://localhost:3000/bye", "https://app.example.com/bye?z=9&state=old&a=1", "https://app.example.com/a%20b",
-	"https://other.example.org/logout/done"}
+	"https://other.example.org/logout/done", "https://[2001:db8::1]/bye", "https://rp.example/bye?src=op"}
 var plGlobPool = []string{"https://app.example.com/*", "https://*.example.com/bye", "https://app.example.com/by?", "myapp://*",
 	"https://app.example.com/[a-c]ye", "https://[", "https://app.example.com/[a-", "https://app.example.com/bye\\", "*", "https://app.example.com/*/*"}
 var plShots = []string{"https://app.example.com/anything", "https://sub.example.com/bye", "https://app.example.com/byX", "myapp://x",
@@ -120,9 +120,9 @@ func genClient(r drv.Rand, id string) *refstore.Client {
 	for i := 0; i < n; i++ {
 		c.PostLogout = append(c.PostLogout, drv.Pick(r, postPool))
 	}
-	if r.Chance(2, 5) {
+	if r.Chance(1, 2) {
 		c.UseGlobs = true
-		ng := 1 + r.IntN(2)
+		ng := r.IntN(3) // HasRedirectGlobs without any registered glob is possible
 		for i := 0; i < ng; i++ {
 			c.PostLogoutGlobs = append(c.PostLogoutGlobs, drv.Pick(r, plGlobPool))
 		}
@@ -130,7 +130,42 @@ func genClient(r drv.Rand, id string) *refstore.Client {
 	return c
 }
 
+// patternInstance: a string the registered URI reg would match if it were read as a
+// path.Match pattern (which nobody opted into). ok=false when reg has no metacharacter.
+func patternInstance(r drv.Rand, reg string) (string, bool) {
+	var sb strings.Builder
+	for i := 0; i < len(reg); i++ {
+		switch ch := reg[i]; ch {
+		case '?':
+			sb.WriteByte(drv.Pick(r, []byte("Xz9")))
+		case '*':
+			sb.WriteString(drv.Pick(r, []string{"", "evil", "x.y"}))
+		case '[':
+			j := strings.IndexByte(reg[i+1:], ']')
+			if j <= 0 {
+				return "", false
+			}
+			class := strings.TrimLeft(reg[i+1:i+1+j], "^")
+			if class == "" {
+				return "", false
+			}
+			sb.WriteByte(class[r.IntN(len(class))])
+			i += j + 1
+		default:
+			sb.WriteByte(ch)
+		}
+	}
+	out := sb.String()
+	if m, err := path.Match(reg, out); out == reg || err != nil || !m {
+		return "", false
+	}
+	return out, true
+}
+
 func mutate(r drv.Rand, base string) (string, string) {
+	if u, ok := patternInstance(r, base); ok && r.Bool() {
+		return u, "patshot"
+	}
 	switch r.IntN(9) {
 	case 0:
 		return base + drv.Pick(r, []string{"/x", "x", "?x=1", "#f", "/../evil", "&y=2", "/"}), "suffix"
